@@ -16,7 +16,7 @@ the plainly compiled object of the freshly generated std and of generated
 programs (size -A, nm, objdump -r)."""
 import glob, json, os, re, subprocess
 import stdbuild, stdtrace, stdinputs, wcorepipe
-from vlib import ToolingError, REPO
+from vlib import ToolingError, REPO, VERIF
 
 META = {
     "level": "other",
@@ -110,8 +110,11 @@ def run(ctx):
     ctx.log("std object: %d exported functions, failures %d" % (observed["exported_functions"], len(fails)))
     # 1b. generated programs (the WuffsCore corpus): each package on its own
     wtools = wcorepipe.build_tools(ctx)
-    srcs = wcorepipe.load_sources(ctx, 0, include_known=False)
-    batch = wcorepipe.prepare(ctx, wtools, srcs)
+    # (with the known / must-reject shapes: on the unchanged tree the compiler rejects them; a compiler change that
+    # accepts one makes it a program like any other - e.g. a "pure" method with an impure call in an argument)
+    srcs = wcorepipe.load_sources(ctx, 0, include_known=True)
+    srcs += [(os.path.basename(f)[:-6], open(f).read(), "must-reject") for f in sorted(glob.glob(os.path.join(VERIF, "harness", "testdata", "c10", "reject", "*.wuffs")))]
+    batch = wcorepipe.prepare(ctx, wtools, srcs, lenient=True)
     nprog = 0
     for p in batch.progs:
         pkg = p["pkg"]
@@ -129,6 +132,41 @@ def run(ctx):
         for clause, detail in f2:
             ctx.violation("generated program %s: %s: %s" % (p["name"], clause, detail),
                           {"key": "prog:%s:%s" % (p["name"], clause), "clause": clause, "detail": detail, "source": p["src"]})
+    # 1b'. hand-written packages whose SHAPE matters for the object file (a private struct implementing an interface
+    # gets a function-pointer table: read-only data; several structs per package): sections, symbols, allocator use
+    for f in sorted(glob.glob(os.path.join(VERIF, "harness", "testdata", "c10", "accept", "*.wuffs"))):
+        pkg = "c10" + re.sub(r"[^a-z0-9]", "", os.path.basename(f)[:-6])
+        c = subprocess.run([wtools["wuffs-c"], "gen", "-package_name", pkg, f], capture_output=True, text=True, timeout=120)
+        if c.returncode != 0:
+            ctx.notes.append("C10 test package %s is not accepted by this compiler: %s" % (os.path.basename(f), c.stderr[:200]))
+            continue
+        open(os.path.join(batch.cdir, pkg + ".c"), "w").write(c.stdout)
+        tu = os.path.join(batch.cdir, "tu_%s.c" % pkg)
+        open(tu, "w").write("#define WUFFS_IMPLEMENTATION\n#define WUFFS_CONFIG__MODULES\n#define WUFFS_CONFIG__MODULE__BASE\n"
+                            "#define WUFFS_CONFIG__MODULE__%s\n#include \"wuffs-base.c\"\n#include \"%s.c\"\n" % (pkg.upper(), pkg))
+        try:
+            f2, _ = object_checks(ctx, tu, [batch.cdir], pkg, None, defines=())
+        except ToolingError:
+            continue
+        nprog += 1
+        for clause, detail in f2:
+            ctx.violation("test package %s: %s: %s" % (os.path.basename(f), clause, detail),
+                          {"key": "pkg:%s:%s" % (os.path.basename(f), clause), "clause": clause, "detail": detail, "source": open(f).read()})
+    # 1c. generated programs: the frame condition of every method declared pure (rows validated by TLC, Trace_Pure.tla)
+    wcorepipe.compile_batch(ctx, batch, variants=(("gcc", "-O1"),))
+    prows = wcorepipe.pure_probe(ctx, batch, batch.exes[("gcc", "-O1")])
+    if prows:
+        text = "".join(json.dumps({k: v for k, v in r.items() if k not in ("src", "args")}) + "\n" for r in prows)
+        cfg = "SPECIFICATION Spec\nCONSTANT RowsFile = \"rows.ndjson\"\nINVARIANT RowOK\nCHECK_DEADLOCK FALSE\n"
+        res = ctx.tlc("Trace_Pure", cfg="p.cfg", data={"p.cfg": cfg, "rows.ndjson": text}, extra=["-continue"], timeout=1200, label="pure-method rows")
+        if res["error"] and not res["violated"]:
+            raise ToolingError("TLC error on the pure-method rows:\n" + res["error"])
+        for m in sorted({int(x) for x in re.findall(r"^/\\ k = (\d+)", res["out"], re.M)}):
+            r = prows[m - 1]
+            ctx.violation("generated program %s: method %s is declared pure but calling it (%s) changed %s" % (
+                r["prog"], r["fn"], r["args"], "the receiver" if r["objchg"] else "the destination buffer"),
+                {"key": "prog-pure:%s:%s" % (r["prog"], r["fn"]), "row": {k: v for k, v in r.items() if k != "src"}, "source": r["src"]})
+    ctx.log("pure-method probes on generated programs: %d calls of methods declared pure, validated by TLC" % len(prows))
     # 2. behaviour: pure-method frame + isolation of two objects
     exe, log = stdbuild.compile_driver(ctx, root, "stddrive.c", "plain")
     if exe is None:
